@@ -203,7 +203,7 @@ def fields(ctx: Ctx, rule="R-C13-FIELDS") -> None:
     # eager stores
     for name, want_success in (("set_result", True), ("set_exception", False)):
         f = ctx.func(f"{C.MSGDEP}.{name}")
-        inner = f.nested.get("_inner")
+        inner = C.nested_of(f, "_inner") or C.nested_of(f, None, want_async=True)
         ctx.require(inner is not None, f"{f.qualname}: nested store coroutine _inner not found")
         st = [c for c in ast.walk(inner.node) if isinstance(c, ast.Call) and isinstance(c.func, ast.Attribute) and c.func.attr == "store_bucket"]
         ctx.require(len(st) == 1, f"{inner.qualname}: store_bucket call not found")
@@ -391,6 +391,7 @@ def bucket_brokers(ctx: Ctx, rule="R-C13-FIELDS") -> None:
     ctx.check(ok, rule, gb, "in-memory get_bucket: storage.get(id_)", "reads the bucket of that id", f"in-memory get_bucket returns {unparse(rv) if rv is not None else '?'}", instance="in-memory get")
     init = ctx.func(f"{im}.__init__")
     bcv = C.stored_value(init, "self.BUCKET_CLASS")
+    bcv = C.call_as_expr(ctx, init, bcv) if bcv is not None else None  # the choice may live in a small helper
     t = C.negate_aware_ifexp(bcv) if bcv is not None else None
     ok = t is not None and dotted(t[0]) == "use_result_bucket" and dotted(t[1]) == "ResultBucket" and dotted(t[2]) == "ArgsBucket"
     ctx.check(ok, rule, init, "results broker builds ResultBucket", "ResultBucket if use_result_bucket else ArgsBucket", "in-memory bucket broker's bucket class selection changed", instance="in-memory bucket class")
